@@ -10,10 +10,14 @@ Never commits anything in /repo.
 """
 import json, os, re, shutil, subprocess, sys
 
-ID = sys.argv[1]
-EXTRA = sys.argv[2:]
-WT = f"/tmp/wt/{ID}"
-OUT = f"/tmp/wt/{ID}-out"
+ARGS = [a for a in sys.argv[1:] if not a.startswith("--")]
+ROUND = 2 if "--round2" in sys.argv else 1
+ID = ARGS[0]
+EXTRA = ARGS[1:]
+BASE = "/tmp/wt2" if ROUND == 2 else "/tmp/wt"
+OFFSET = 3 if ROUND == 2 else 0
+WT = f"{BASE}/{ID}"
+OUT = f"{BASE}/{ID}-out"
 ENV = dict(os.environ, CARGO_NET_OFFLINE="true")
 
 
@@ -28,8 +32,8 @@ def main():
     for mf in muts:
         n = re.findall(r"\d+", mf)[0]
         demo = f"{OUT}/demo{n}.rs"
-        tag = f"{ID}-m{n}"
-        res = {"id": tag, "property": ID, "source": "independent sub-agent, given only the property text and a scratch worktree"}
+        tag = f"{ID}-m{int(n) + OFFSET}"
+        res = {"id": tag, "round": ROUND, "property": ID, "source": "independent sub-agent, given only the property text and a scratch worktree"}
         if not os.path.exists(demo):
             print(tag, "SKIP: no demo")
             continue
